@@ -59,7 +59,7 @@ def generate(tier, seed):
                 lines = [["p", "p"] + r for r in p_rules(dom)[:3]] + [["g", "g"] + g_rules(dom)[1]]
                 cases.append(case("eng", sp, adapter_M(lines), "-", steps))
                 dist["exhaustive"] += 1
-        n_rand = 40 if tier == "quick" else 800
+        n_rand = 40 if tier == "quick" else 5000
         for _ in range(n_rand):
             n = rnd.choice([5, 10, 30, 100]) if tier != "quick" else rnd.choice([5, 10, 30])
             steps = []
